@@ -6,7 +6,13 @@
 //! request that reaches ANY node is answered with the k-th outcome of its script (then `ok`):
 //! `ok`, `un` Unavailable, `bs` IsBootstrapping, `rt` ReadTimeout (enough replies, no data), `rtd` ReadTimeout (data
 //! present), `ov` Overloaded, `se` ServerError, `tr` TruncateError, `wt` WriteTimeout SIMPLE, `wtb` WriteTimeout
-//! BATCH_LOG, `inv` Invalid, `cl` the node closes the connection without answering.
+//! BATCH_LOG, `inv` Invalid, `cl` the node closes the connection without answering, `unp` UNPREPARED (naming the id
+//! of the frame's own prepared statement; only scripted by the `wire` cases of c06.rs, which run this same code and
+//! are additionally compared with the frame-level model `Model/RetryFrames.lean`).
+//!
+//! With `unp` the statement is sent again INSIDE one attempt (EXECUTE once more after the re-prepare, BATCH in a
+//! loop), so the oracle below is stated at frame level: an ATTEMPT starts at the first frame and after every frame
+//! whose predecessor was not answered `unp`.
 //!
 //! `via=caching`: the requests go through a `CachingSession` (`execute_unpaged(text, values)`; `batch` with an
 //! unprepared statement, i.e. through `prepare_batch`) - idempotence, retry policy and consistency are set on the
@@ -27,7 +33,7 @@ use crate::{Ctx, Tier};
 use std::sync::{Arc, Mutex};
 use std::time::Duration;
 
-const OUTCOMES: &[&str] = &["ok", "un", "bs", "rt", "rtd", "ov", "se", "tr", "wt", "wtb", "inv", "cl"];
+const OUTCOMES: &[&str] = &["ok", "un", "bs", "rt", "rtd", "ov", "se", "tr", "wt", "wtb", "inv", "cl", "unp"];
 /// outcomes that prove the attempt was not applied
 const PROOF: &[&str] = &["un", "bs", "rt", "rtd"];
 
@@ -95,6 +101,22 @@ fn outcome_acts(o: &str) -> Vec<Act> {
     }
 }
 
+/// UNPREPARED naming the prepared statement of the frame itself (so that the driver re-prepares and sends again).
+fn unprepared_for(r: &Req) -> Vec<Act> {
+    let id: Vec<u8> = match &r.parsed {
+        Parsed::Execute { id, .. } => id.clone(),
+        Parsed::Batch { statements, .. } => statements
+            .iter()
+            .find_map(|s| match s {
+                BatchStmt::Prepared(id, _) => Some(id.clone()),
+                _ => None,
+            })
+            .unwrap_or_else(|| stmt_id(INSERT)),
+        _ => stmt_id(INSERT),
+    };
+    vec![Act::Respond(crate::mocknode::RESP_ERROR, crate::mocknode::body_unprepared(&id))]
+}
+
 fn key_of(req: usize) -> Vec<u8> {
     vec![0xE0, req as u8, 0x5A]
 }
@@ -151,7 +173,7 @@ pub fn run(words: &[&str], ctx: &mut Ctx) -> String {
         let k = sv[q].len();
         let o = scripts_h[q].get(k).cloned().unwrap_or_else(|| "ok".to_owned());
         sv[q].push((o.clone(), r.node));
-        outcome_acts(&o)
+        if o == "unp" { unprepared_for(r) } else { outcome_acts(&o) }
     });
     let rt = runtime(1);
     rt.block_on(async {
@@ -237,9 +259,12 @@ pub fn run(words: &[&str], ctx: &mut Ctx) -> String {
         for q in 0..n_req {
             let sv: Vec<&str> = served[q].iter().map(|x| x.0.as_str()).collect();
             let what = format!("request {} ({}, {}, policy {}, cl {}, via {})", q, if idem != 0 { "idempotent" } else { "NOT idempotent" }, kind, pol, cl, via);
+            // frames that START an attempt: the first one and every one whose predecessor was not answered UNPREPARED
+            let attempts = if sv.is_empty() { 0 } else { 1 + (1..sv.len()).filter(|k| sv[k - 1] != "unp").count() };
             if idem == 0 {
                 for k in 1..sv.len() {
-                    if !PROOF.contains(&sv[k - 1]) {
+                    // frame level: UNPREPARED also proves that the statement was not applied
+                    if !PROOF.contains(&sv[k - 1]) && sv[k - 1] != "unp" {
                         ctx.fail(format!(
                             "e2e retry: {} was sent again (frame {} at node {}) after `{}`, which does not prove that the previous attempt was not applied; served outcomes {:?}",
                             what,
@@ -252,14 +277,24 @@ pub fn run(words: &[&str], ctx: &mut Ctx) -> String {
                     }
                 }
             }
-            if pol == "fall" && sv.len() > 1 {
-                ctx.fail(format!("e2e retry: {} was sent {} times although the fall-through policy never retries; served {:?}", what, sv.len(), sv));
+            if pol == "fall" && attempts > 1 {
+                ctx.fail(format!("e2e retry: {} was attempted {} times although the fall-through policy never retries; served {:?}", what, attempts, sv));
             }
-            if cl != "q" && pol == "def" && sv.len() > 1 {
-                ctx.fail(format!("e2e retry: {} at serial consistency was sent {} times by the default policy", what, sv.len()));
+            if cl != "q" && pol == "def" && attempts > 1 {
+                ctx.fail(format!("e2e retry: {} at serial consistency was attempted {} times by the default policy; served {:?}", what, attempts, sv));
             }
-            if sv.len() > n + 2 {
-                ctx.fail(format!("e2e retry: {} was sent {} times on a cluster of {} nodes (bound: nodes + 2); served {:?}", what, sv.len(), n, sv));
+            if attempts > n + 2 {
+                ctx.fail(format!("e2e retry: {} was attempted {} times on a cluster of {} nodes (bound: nodes + 2); served {:?}", what, attempts, n, sv));
+            }
+            // QUERY is never re-sent inside an attempt, EXECUTE at most once (connection.rs:1102-1133)
+            let plain_query = kind == "query" && via == "session";
+            for k in 1..sv.len() {
+                if plain_query && sv[k - 1] == "unp" {
+                    ctx.fail(format!("e2e retry: {} (a QUERY) was sent again after UNPREPARED; served {:?}", what, sv));
+                }
+                if kind != "batch" && !plain_query && k >= 2 && sv[k - 1] == "unp" && sv[k - 2] == "unp" {
+                    ctx.fail(format!("e2e retry: {} was sent a third time inside one attempt (two UNPREPARED answers in a row); served {:?}", what, sv));
+                }
             }
             if let Some(i) = sv.iter().position(|o| *o == "ok") {
                 if i + 1 != sv.len() {
